@@ -285,6 +285,17 @@ func main() {
 				fmt.Println(o.Verdict, o.Key, o.Pos, o.Detail)
 			}
 		}
+	case "wccensus":
+		for _, k := range rules.WCSites(rc) {
+			fmt.Printf("\t%q: %q,\n", k.Target+"|"+k.Caller, "reviewed "+k.Pos)
+		}
+	case "rp":
+		rules.RP(rc, nil, 0)
+		for _, o := range s.Obs {
+			if o.Rule == "RP" {
+				fmt.Println(o.Verdict, o.Key, o.Pos, o.Detail)
+			}
+		}
 	case "lc":
 		rules.LC(rc, 0)
 		for _, o := range s.Obs {
